@@ -5,6 +5,7 @@ import (
 	"go/token"
 	"go/types"
 	"reflect"
+	"regexp"
 	"strconv"
 	"strings"
 
@@ -175,6 +176,7 @@ func checkHeaderWalkerCalls(ctx *Ctx, hn *types.Named) {
 		}
 		pos := ctx.Prog.Pos(fn.Pos())
 		ip := absint.New()
+		ip.UnrollLoops = true
 		h := &absint.Ptr{Nil: absint.TriF, Obj: ip.SymObj("h", hn), T: hn}
 		st := &absint.State{Heap: absint.NewHeap(nil)}
 		before := absint.ValKey(ip.Load(st, h, hn))
@@ -649,6 +651,7 @@ func checkVersion(ctx *Ctx, hn *types.Named, hs *types.Struct, leaves []leafFiel
 	}
 	pos := ctx.Prog.Pos(fn.Pos())
 	ip := absint.New()
+	ip.UnrollLoops = true // (a fixed-size field cleared by a counted loop)
 	h := &absint.Ptr{Nil: absint.TriF, Obj: ip.SymObj("h", hn), T: hn}
 	ip.Hooks.OverrideCall = func(ip *absint.Interp, st *absint.State, f *ssa.Function, a []absint.Val) (absint.Val, bool) {
 		if reachesAPI(f, "encoding/binary.Read", map[*ssa.Function]bool{}) {
@@ -750,6 +753,8 @@ func checkVersion(ctx *Ctx, hn *types.Named, hs *types.Struct, leaves []leafFiel
 		R.Pass("version", "ReadHeader", pos, "3,3,2,1 over the four assignments; version 1 zeroes exactly the fields below Title; nothing else is modified")
 	}
 }
+
+var turnedRound = regexp.MustCompile(`^\(([0-9a-f]+)>0\+(len\(.*\))\)$`)
 
 func checkROMHeader(ctx *Ctx, total, titleOff int) {
 	R := ctx.R
@@ -995,6 +1000,10 @@ func checkROMHeader(ctx *Ctx, total, titleOff int) {
 			if c, isC := hdrOff.IsConst(); isC {
 				for k, v := range guardsAtRead {
 					// (len(contents) < K) == false
+					// (K > len(contents)) == false is the same test written the other way round
+					if m := turnedRound.FindStringSubmatch(k); m != nil && !v {
+						k = "(0+" + m[2] + "<" + m[1] + ")"
+					}
 					if strings.HasPrefix(k, "(0+len(") && strings.Contains(k, "<") && !v {
 						kk := k[strings.Index(k, "<")+1 : len(k)-1]
 						if lim, err := strconv.ParseUint(kk, 16, 64); err == nil && c+uint64(total) <= lim {
